@@ -27,6 +27,23 @@ theorem foldAux_ascii : ∀ (k : Bytes), (∀ b ∈ k, b < 128) → foldAux 0 k 
 
 theorem credNames_ascii : ∀ n ∈ credNames, ∀ b ∈ n, b < 128 := by decide
 
+theorem credNames_no_colon : ∀ n ∈ credNames, (58 : UInt8) ∉ n := by decide
+
+/-- a key without `:` does not start with `Trailer:` -/
+theorem stripTrailer_no_colon (k : Bytes) (h : (58 : UInt8) ∉ k) : stripTrailer k = k := by
+  unfold stripTrailer
+  split
+  · rename_i hp
+    rcases List.isPrefixOf_iff_prefix.mp hp with ⟨t, rfl⟩
+    exact absurd (by simp [trailerPrefix, str]) h
+  · rfl
+
+theorem stripTrailer_prefixed (k : Bytes) : stripTrailer (trailerPrefix ++ k) = k := by
+  unfold stripTrailer
+  have : trailerPrefix.isPrefixOf (trailerPrefix ++ k) = true :=
+    List.isPrefixOf_iff_prefix.mpr (List.prefix_append _ _)
+  simp [this]
+
 /-! ### header objects -/
 
 theorem loggableHeader_eq_spec (h : Hdr) : loggableHeader h false = redactSpec h := by
